@@ -187,6 +187,27 @@ func (f *pathFlow) eval(e ast.Expr) labelled {
 				out = union(out, flatten(f.evalMethodRecv(se, sel)))
 			}
 		}
+		// a call through a function value (a closure kept in a variable, field or table): its result carries
+		// what the function value carries, i.e. what the closure's body returns
+		if _, static := c.callee(x).(*types.Func); !static {
+			out = union(out, flatten(f.eval(x.Fun)))
+		}
+		return whole(out)
+	case *ast.FuncLit:
+		// the value of a closure stands for what calling it yields: the labels of its returned values,
+		// evaluated in the facts of the enclosing function (it captures by reference)
+		out := map[string]bool{}
+		ast.Inspect(x.Body, func(n ast.Node) bool {
+			switch r := n.(type) {
+			case *ast.FuncLit:
+				return r == x
+			case *ast.ReturnStmt:
+				for _, res := range r.Results {
+					out = union(out, flatten(f.eval(res)))
+				}
+			}
+			return true
+		})
 		return whole(out)
 	case *ast.CompositeLit:
 		out := labelled{}
@@ -520,12 +541,38 @@ func (f *pathFlow) returnLabels(i int) map[string]bool {
 		case *ast.ReturnStmt:
 			if i < len(x.Results) {
 				out = union(out, flatten(f.eval(x.Results[i])))
+			} else if len(x.Results) == 0 {
+				// bare return: the named result carries the value
+				if ro := f.c.namedResult(f.fd, i); ro != nil {
+					out = union(out, flatten(f.evalPath(APath{Root: ro})))
+				}
 			}
 		}
 		return true
 	}
 	ast.Inspect(f.fd.Body, walk)
 	return out
+}
+
+// namedResult returns the object of the i-th named result of a function declaration (nil if unnamed).
+func (c *Ctx) namedResult(fd *ast.FuncDecl, i int) types.Object {
+	if fd.Type.Results == nil {
+		return nil
+	}
+	n := 0
+	for _, fld := range fd.Type.Results.List {
+		if len(fld.Names) == 0 {
+			n++
+			continue
+		}
+		for _, nm := range fld.Names {
+			if n == i {
+				return c.Info.Defs[nm]
+			}
+			n++
+		}
+	}
+	return nil
 }
 
 func sortedSet(m map[string]bool) []string {
